@@ -2001,8 +2001,9 @@ class Result:
         """
 
         result = self.copy()
-        if l or p: result = result._group_p(l,p)
-        if n     : result = result._global_n(n)
+        if n and n != 'min': result = result._global_n(n)
+        if l or p          : result = result._group_p(l,p)
+        if n == 'min'      : result = result._global_n(n)
         return result
 
     def _remove(self, ids: Sequence[Tuple[int,int,int]], n=0) -> Sequence[int]:
